@@ -29,9 +29,35 @@ def generate(r):
     nf = r.randint(1, 5)
     scripts = []
     senders_of = collections.defaultdict(list)
-    pattern = r.choice(["random", "random", "random", "backlog", "pingpong", "fan"])
+    pattern = r.choice(["random", "random", "random", "backlog", "pingpong", "fan", "balanced", "balanced"])
 
-    if pattern == "fan":
+    if pattern == "balanced":
+        # count-balanced senders and receivers per channel: completes under every ideal schedule, so every lost
+        # wake-up shows as a spurious deadlock
+        nsend = r.randint(1, 3)
+        per_channel = collections.Counter()
+        for f in range(nsend):
+            ch = r.randrange(nch)
+            k = r.randint(1, 4)
+            scripts.append([["send", ch, (f + 1) * 100 + i] for i in range(k)])
+            senders_of[ch].append(f)
+            per_channel[ch] += k
+        for ch in sorted(per_channel):
+            total = per_channel[ch]
+            n = min(r.randint(1, 2), total)
+            left = total
+            for i in range(n):
+                k = left if i == n - 1 else r.randint(1, left - (n - 1 - i))
+                left -= k
+                scripts.append([["recv", ch] for _ in range(k)])
+        order = list(range(len(scripts)))
+        r.shuffle(order)
+        remap = {old: new for new, old in enumerate(order)}
+        scripts = [scripts[old] for old in order]
+        senders_of = collections.defaultdict(list, {ch: [remap[f] for f in fs] for ch, fs in senders_of.items()})
+        # values keep their original sender prefix; only uniqueness and per-script order matter to the checker
+        nf = len(scripts)
+    elif pattern == "fan":
         # fan in / fan out over one channel with counts that may or may not balance
         ch = 0
         producers = r.randint(1, 3)
